@@ -71,6 +71,9 @@ struct ReaderOut {
     warmed: usize,
     /// searchers obtained before any warm call for their generation had returned (evidence only)
     unwarmed: usize,
+    /// searchers that were only kept, never searched, while the history ran: queried for the first time after the
+    /// final garbage collection
+    untouched: Vec<Searcher>,
 }
 
 fn fingerprint(s: &Searcher, f: &Fields) -> Result<(u64, usize), Failure> {
@@ -95,6 +98,33 @@ impl tantivy::Warmer for RecWarmer {
     fn garbage_collect(&self, live_generations: &[&tantivy::SearcherGeneration]) {
         self.gc_live.lock().unwrap().push(live_generations.iter().map(|g| g.generation_id()).collect());
     }
+}
+
+/// The inverted index of a snapshot agrees with its stored fields: for every word the term query counts the live
+/// documents whose stored body holds the word, and a phrase query of two words counts those holding them side by side.
+fn postings_agree_with_store(s: &Searcher, f: &Fields) -> CaseResult {
+    let mut bodies: Vec<Vec<String>> = vec![];
+    for seg in s.segment_readers().iter() {
+        let store = seg.get_store_reader(1).or_fail("store_reader_failed")?;
+        for doc in seg.doc_ids_alive() {
+            let d: tantivy::TantivyDocument = store.get(doc).or_fail("store_get_failed")?;
+            let body = d.get_first(f.body).and_then(|v| tantivy::schema::document::Value::as_str(&v).map(|s| s.to_string())).unwrap_or_default();
+            bodies.push(body.split_whitespace().map(|w| w.to_string()).collect());
+        }
+    }
+    for w in 0..NUM_WORDS {
+        let word = format!("w{w}");
+        let q = tantivy::query::TermQuery::new(tantivy::Term::from_field_text(f.body, &word), tantivy::schema::IndexRecordOption::WithFreqsAndPositions);
+        let n = s.search(&q, &Count).or_fail("term_query_failed")?;
+        let exp = bodies.iter().filter(|b| b.contains(&word)).count();
+        ensure!(n == exp, "term_query_disagrees_with_stored_fields", "term {word}: {n} documents, the stored bodies of the snapshot hold it in {exp}");
+        let next = format!("w{}", (w + 1) % NUM_WORDS);
+        let pq = tantivy::query::PhraseQuery::new(vec![tantivy::Term::from_field_text(f.body, &word), tantivy::Term::from_field_text(f.body, &next)]);
+        let n = s.search(&pq, &Count).or_fail("phrase_query_failed")?;
+        let exp = bodies.iter().filter(|b| b.windows(2).any(|p| p[0] == word && p[1] == next)).count();
+        ensure!(n == exp, "phrase_query_disagrees_with_stored_fields", "phrase \"{word} {next}\": {n} documents, the stored bodies of the snapshot hold it in {exp}");
+    }
+    Ok(())
 }
 
 pub struct Readers;
@@ -141,7 +171,7 @@ impl Sub for Readers {
             .boxed()
     }
     fn mandatory_labels(&self, _t: Tier) -> Vec<&'static str> {
-        vec!["reload_overlapped_commit", "held_outlived_2_commits", "gate_reached", "second_index", "dir:Mmap", "merge", "gc", "warmer", "warmed_generations>=3", "reload_policy:on_commit", "watcher_reload_advanced_between_commits", "watcher_reload_reached_last_commit", "gc_could_not_take_meta_lock", "mmap_reader_held_inside_meta_lock", "mmap_two_readers_held_inside_meta_lock"]
+        vec!["reload_overlapped_commit", "held_outlived_2_commits", "gate_reached", "second_index", "dir:Mmap", "merge", "gc", "warmer", "warmed_generations>=3", "reload_policy:on_commit", "watcher_reload_advanced_between_commits", "watcher_reload_reached_last_commit", "gc_could_not_take_meta_lock", "searcher_first_queried_after_final_gc", "mmap_reader_held_inside_meta_lock", "mmap_two_readers_held_inside_meta_lock"]
     }
     fn run(&self, c: &ReadersCase, cx: &Ctx) -> CaseResult {
         let mut env = Env::new(c.cfg.clone())?;
@@ -201,13 +231,13 @@ impl Sub for Readers {
                             let every = r.gate_nth.map(|n| (n % 3) as u64 + 1).unwrap_or(0);
                             let md = match tantivy::directory::MmapDirectory::open(p) {
                                 Ok(md) => md,
-                                Err(_) => return vec![ReaderOut { obs: vec![], held: vec![], error: Some(Failure::new("INFRA:mmap", "")), reader: None, warmed: 0, unwarmed: 0 }],
+                                Err(_) => return vec![ReaderOut { obs: vec![], held: vec![], error: Some(Failure::new("INFRA:mmap", "")), reader: None, warmed: 0, unwarmed: 0, untouched: vec![] }],
                             };
                             let hd = crate::holddir::HoldDir::new(md, "reader-", every, Duration::from_millis(12));
                             hold_counters.push(hd.holds_done.clone());
                             match Index::open(hd) {
                                 Ok(ix) => ix,
-                                Err(e) => return vec![ReaderOut { obs: vec![], held: vec![], error: Some(Failure::new("second_index_open_failed", format!("{e:?}"))), reader: None, warmed: 0, unwarmed: 0 }],
+                                Err(e) => return vec![ReaderOut { obs: vec![], held: vec![], error: Some(Failure::new("second_index_open_failed", format!("{e:?}"))), reader: None, warmed: 0, unwarmed: 0, untouched: vec![] }],
                             }
                         }
                         _ => second_index.clone().unwrap(),
@@ -225,7 +255,7 @@ impl Sub for Readers {
                         .name(format!("reader-{i}"))
                         .spawn_scoped(scope, move || {
                             let (_s, f) = hist_schema();
-                            let mut out = ReaderOut { obs: vec![], held: vec![], error: None, reader: None, warmed: 0, unwarmed: 0 };
+                            let mut out = ReaderOut { obs: vec![], held: vec![], error: None, reader: None, warmed: 0, unwarmed: 0, untouched: vec![] };
                             let warmer: Option<Arc<RecWarmer>> = if use_warmer { Some(Arc::new(RecWarmer::default())) } else { None };
                             let mut builder = index.reader_builder().reload_policy(if auto { ReloadPolicy::OnCommitWithDelay } else { ReloadPolicy::Manual });
                             if let Some(w) = &warmer {
@@ -293,6 +323,15 @@ impl Sub for Readers {
                                     break;
                                 }
                                 let s = reader.searcher();
+                                if n % 5 == 3 && out.untouched.len() < 6 && !auto {
+                                    // kept without a single access: its first query comes after everything else
+                                    out.untouched.push(s);
+                                    n += 1;
+                                    if finishing {
+                                        break;
+                                    }
+                                    continue;
+                                }
                                 let (fpv, cnt) = match fingerprint(&s, &f) {
                                     Ok(x) => x,
                                     Err(fl) => {
@@ -403,7 +442,7 @@ impl Sub for Readers {
             if let Some(sd) = &sim {
                 sd.release_all();
             }
-            handles.into_iter().map(|h| h.join().unwrap_or_else(|_| ReaderOut { obs: vec![], held: vec![], error: Some(Failure::new("panic:reader", "reader thread panicked")), reader: None, warmed: 0, unwarmed: 0 })).collect()
+            handles.into_iter().map(|h| h.join().unwrap_or_else(|_| ReaderOut { obs: vec![], held: vec![], error: Some(Failure::new("panic:reader", "reader thread panicked")), reader: None, warmed: 0, unwarmed: 0, untouched: vec![] })).collect()
         });
         let gc_lock_faults_fired = sim.as_ref().map(|sd| sd.faults_fired()).unwrap_or(0);
         if let Some(sd) = &sim {
@@ -421,6 +460,7 @@ impl Sub for Readers {
         let model_fps: Vec<u64> = env.models.iter().map(model_fingerprint).collect();
         let (_s, f) = hist_schema();
         let mut overlapped = false;
+        let mut untouched_checked = 0u32;
         let mut auto_advanced = false;
         let mut auto_caught_up = false;
         let mut outlived = false;
@@ -467,7 +507,12 @@ impl Sub for Readers {
                     }
                 }
             }
+            for (k, us) in out.untouched.iter().enumerate() {
+                postings_agree_with_store(us, &f).map_err(|fl| Failure::new(format!("untouched_held_searcher_after_gc:{}", fl.sig), format!("reader {ri} ({:?}), searcher #{k} kept unused during the history: {}", c.readers[ri], fl.detail)))?;
+                untouched_checked += 1;
+            }
             for (hs, hfp, taken, hcnt) in &out.held {
+                postings_agree_with_store(hs, &f).map_err(|fl| Failure::new(format!("held_searcher_after_gc:{}", fl.sig), format!("reader {ri}: {}", fl.detail)))?;
                 let (x, c2) = fingerprint(hs, &f).map_err(|fl| Failure::new(format!("held_searcher_error_after_gc:{}", fl.sig), fl.detail))?;
                 ensure!(x == *hfp && c2 == *hcnt, "held_searcher_changed_after_gc", "reader {ri}: fingerprint {hfp}->{x}, count {hcnt}->{c2}");
                 let later_commits = spans.iter().filter(|(_, start, _)| *start > *taken).count();
@@ -490,6 +535,7 @@ impl Sub for Readers {
         cx.label_if(env.stats.merges > 0, "merge");
         cx.label_if(env.stats.gc > 0, "gc");
         cx.label_if(c.readers.iter().any(|r| r.warmer), "warmer");
+        cx.label_if(untouched_checked > 0, "searcher_first_queried_after_final_gc");
         cx.label_if(hold_counters.iter().any(|h| h.load(Ordering::SeqCst) > 0), "mmap_reader_held_inside_meta_lock");
         cx.label_if(hold_counters.iter().filter(|h| h.load(Ordering::SeqCst) > 0).count() >= 2, "mmap_two_readers_held_inside_meta_lock");
         cx.label_if(c.readers.iter().any(|r| r.auto), "reload_policy:on_commit");
